@@ -108,6 +108,12 @@ class LRTDP(Plans):
             policy_dict[s] = self.policy(mdp, s)
             for a in mdp.actions(s):
                 q_values[s][a] = self.Q(mdp, s, a)
+        # A state can be labelled solved without ever being updated (so it is not in V).
+        # Its labelling relied on the greedy action under the stored action order, so
+        # the returned policy uses that same action rather than a separate look-ahead.
+        for s in list(self.res.action_orders.keys()):
+            if s not in policy_dict:
+                policy_dict[s] = self.policy(mdp, s)
         res.Q = q_values
 
         @FunctionalPolicy
